@@ -77,6 +77,7 @@ class Ctx:
         self.stats = Counter()
         self.nontrivial = False
         self.state_sig = None
+        self.trace_override = None
         self.extra = {}
 
     def violate(self, oracle, disc, detail=""):
@@ -95,7 +96,7 @@ class Ctx:
             "fired": dict(self.seam.fired),
             "probes": dict(self.probes),
             "stats": dict(self.stats),
-            "trace": self.seam.trace_digest(),
+            "trace": self.trace_override or self.seam.trace_digest(),
             "points": self.seam.npoints,
             "sim_ns": self.clock.covered(),
             "extra": self.extra,
@@ -114,6 +115,7 @@ class World:
         self.seam = ctx.seam
         self.remotes = {}
         self._fs = None
+        self.persistent_remotes = False
         real_makedirs(self.root)
 
     def p(self, *parts):
@@ -157,11 +159,12 @@ class World:
         except FileNotFoundError:
             pass
 
-    def remote_fs(self, name, backing=None):
+    def remote_fs(self, name):
         from .remote import SimRemoteFS
 
         if name not in self.remotes:
-            self.remotes[name] = SimRemoteFS(name, self.seam)
+            backing = (self.root + ".remote") if self.persistent_remotes else None
+            self.remotes[name] = SimRemoteFS(name, self.seam, backing=backing)
         return self.remotes[name]
 
     def odb(self, name, kind="local", state=None, **config):
